@@ -265,6 +265,16 @@ def check_pair(item):
     family, s, d = item
     D = Dialect.get_or_raise(d or None)
     res = {"status": None, "evals": 0, "parse": 0, "gen": 0, "changed": 0, "fmt": 0, "viol": []}
+    if family.startswith("literal-contexts|"):
+        # relative contract: IF the literal alone is a round-trip fixpoint in d THEN so is the literal in each context
+        # (literal forms that are already not idempotent on their own are reported by the literals-casts family)
+        family, lit = family.split("|", 1)
+        alone = check_pair(("literals-casts", f"SELECT {lit}", d))
+        res["parse"] += alone["parse"]
+        res["gen"] += alone["gen"]
+        if alone["status"] != "evaluated" or alone["viol"]:
+            res["status"] = "precondition-literal-alone-not-a-fixpoint"
+            return res
     inp = {"kind": "pair", "family": family, "sql": s, "dialect": d}
 
     def V(clause, cause, what, **extra):
@@ -504,6 +514,27 @@ TYPES = ["INT", "INTEGER", "BIGINT", "SMALLINT", "TINYINT", "FLOAT", "DOUBLE", "
          "DECIMAL(38, 0)", "CHARACTER VARYING(10)", "NATIONAL CHAR(3)", "my_type", "sch.my_type", "NUMERIC(10, 2)[]", "ARRAY<ARRAY<INT>>", "DATE NOT NULL"]
 
 
+def literal_sequence_statements():
+    """two literals of (possibly) different kinds in ONE statement: what the generator prints for the second must not
+    depend on the first (shared escape tables, memoised escapes, ...)."""
+    return [f"SELECT {a} AS x, {b} AS y" for a in STRINGS for b in STRINGS]
+
+
+LITERAL_CONTEXTS = ["SELECT {} total", "SELECT {} AS x, 1", "SELECT d + {} > d2 FROM t", "SELECT {}, {} FROM t",
+                    "SELECT SUM(b) OVER (ORDER BY d RANGE BETWEEN {} PRECEDING AND {} FOLLOWING) FROM t",
+                    "SELECT a FROM t WHERE d BETWEEN {} AND {}", "SELECT CASE WHEN a THEN {} ELSE {} END FROM t"]
+
+
+def literal_context_statements():
+    """every interval / date / number literal form followed by each kind of neighbour (implicit alias word, AS, comma,
+    operator, window-frame keyword): speculative look-ahead after a literal must be undone completely."""
+    out = []
+    for lit in INTERVALS + DATES + NUMBERS[:12]:
+        for ctx in LITERAL_CONTEXTS:
+            out.append((lit, ctx.replace("{}", lit)))
+    return out
+
+
 def literal_statements():
     out = []
     for lit in STRINGS + NUMBERS + DATES + INTERVALS + CONSTS + ARRAYS:
@@ -723,6 +754,14 @@ def families(tier):
     add("dialect-operators", ((s, d) for d in ds for s in op_statements(d, tier)))
     lits = literal_statements()
     add("literals-casts", ((s, d) for s in lits for d in ds))
+    lseq = literal_sequence_statements()
+    if tier == "quick":
+        add("literal-sequences", ((s, d) for g, s in enumerate(lseq) for d in [""] + others[g % 2::2]))
+    else:
+        add("literal-sequences", ((s, d) for s in lseq for d in ds))
+    lctx = literal_context_statements()
+    stats["literal-contexts"] = len(lctx) * len(ds)
+    items.extend((f"literal-contexts|{lit}", s, d) for lit, s in lctx for d in ds)
     sk = skeleton_statements(tier)
     add("select-skeletons", ((s, d) for s in sk for d in ds))
     tf = harness.pool_map(timefmt_statements, [(d, tier) for d in ds], chunksize=1)
